@@ -118,7 +118,13 @@ def search(ctx, hints):
                 res['violations'].append(dict(key='unparsed-finding', desc=line[:300], replay=None))
         elif line.startswith('SAMPLE ') and len(res['samples']) < 6:
             res['samples'].append(line[7:300])
-    if rc != 0:
+    if rc != 0 and 'out of memory: cannot allocate' in (se + so):
+        m = re.search(r'cannot allocate (\d+)-byte block', se + so)
+        res['violations'].append(dict(key='memory-expansion-underpriced-host-oom',
+                                      desc='the node process died allocating %s bytes of EVM memory for a payable amount of gas: %s'
+                                           % (m.group(1) if m else '?', (se or so)[-300:]),
+                                      replay=dict(cmd='harness/bin/c11 mode=search (corpus line: C 63 300000000 - 60016000641822cab7ff3700 - -)', seed=ctx.seed)))
+    elif rc != 0:
         res['violations'].append(dict(key='searcher-process-died', desc='search harness exited %d: %s' % (rc, (se or so)[-600:]),
                                       replay=dict(cmd='harness/bin/c11 mode=search', seed=ctx.seed)))
     return res
